@@ -95,6 +95,47 @@ func c03FinderPath(code *syntax.Code) string {
 	return "none"
 }
 
+// c03FactsMalformed checks the well-formedness the finder theorems assume of the published record
+// (hypotheses hwf of finder_fixedSets_sound, nonempty/first of StringsFacts, hset of
+// finder_literalAfterLoop_sound). "" = fine.
+func c03FactsMalformed(code *syntax.Code) string {
+	fo := code.FindOptimizations
+	switch fo.FindMode {
+	case syntax.LeadingStrings_LeftToRight, syntax.LeadingStrings_OrdinalIgnoreCase_LeftToRight:
+		if len(fo.LeadingPrefixesRunes) == 0 {
+			return "no prefixes"
+		}
+		for _, p := range fo.LeadingPrefixesRunes {
+			if len(p) == 0 {
+				return "empty prefix"
+			}
+			found := false
+			for _, r := range fo.LeadingPrefixFirstRunes {
+				found = found || r == p[0]
+			}
+			if !found {
+				return fmt.Sprintf("first rune %q of a prefix is missing from LeadingPrefixFirstRunes", p[0])
+			}
+		}
+	case syntax.LeadingSet_LeftToRight, syntax.FixedDistanceSets_LeftToRight:
+		if len(fo.FixedDistanceSets) == 0 || fo.FixedDistanceSets[0].Set == nil {
+			return "no fixed-distance set, or the first one without its CharSet"
+		}
+	case syntax.LiteralAfterLoop_LeftToRight:
+		if fo.LiteralAfterLoop == nil || fo.LiteralAfterLoop.LoopNode == nil || fo.LiteralAfterLoop.LoopNode.Set == nil {
+			return "literal-after-loop without its loop set"
+		}
+	case syntax.RequiredLandmarkChain_LeftToRight:
+		if fo.LandmarkChain == nil || fo.LandmarkChain.LeadingLoopSet == nil || len(fo.LandmarkChain.Landmarks) == 0 {
+			return "landmark chain without loop set or landmarks"
+		}
+	}
+	if code.RightToLeft && c03FinderPath(code) == "opt" {
+		return "a left-to-right helper selected for a right-to-left program"
+	}
+	return ""
+}
+
 // c03FinderLine renders the request for the Lean driver.
 func c03FinderLine(code *syntax.Code, text []rune, textstart int) string {
 	seen := map[rune]bool{}
@@ -255,6 +296,12 @@ func c03FindersCheck(c *core.Ctx, cases []engCase) []core.Outcome {
 			continue
 		}
 		b.WriteByte(')')
+		if why := c03FactsMalformed(code); why != "" {
+			o.Fail = &core.Failure{Kind: "correspondence-break", Key: "model:facts-malformed:" + tag,
+				Summary:  fmt.Sprintf("the published record violates a well-formedness assumption of the finder theorems: pattern %q opts %d codegen=%v: %s", cs.Pattern, cs.Opts, cs.CodeGen, why),
+				Expected: "well-formed FindOptimizations", Got: why}
+			continue
+		}
 		goAns[i] = b.String()
 		lines[i] = c03FinderLine(code, text, cs.Start)
 		o.Nontrivial = n > 0
